@@ -10,7 +10,7 @@ from __future__ import annotations
 import itertools
 
 from vf.common import BudgetExceeded, StepBudget, rng_for, short_tb
-from vf.engine import show, to_expr, tree_from_json
+from vf.engine import show, to_expr, to_expr_shared, tree_from_json
 from vf.model import regex as R
 
 ID = "C13"
@@ -32,7 +32,7 @@ EXHAUSTIVE = {"quick": True, "thorough": True}
 EXHAUSTIVE_SCOPE = {t: f"all pattern trees with <= {b['tree']} nodes over {{a,b,c}} x all sequences of length <= {b['seq']}" +
                        (f"; all trees with 6..{b['ab_tree']} nodes over {{a,b}} x all sequences of length <= {b['ab_seq']}" if b["ab_tree"] else "") +
                        "; random cases beyond are sampling" for t, b in BOUNDS.items()}
-MINIMUM = {"quick": {"monitor.match": 100000, "monitor.nfa_match": 100000, "monitor.starts_with": 100000},
+MINIMUM = {"quick": {"monitor.match": 100000, "monitor.nfa_match": 100000, "monitor.starts_with": 100000, "cases.shared_operator_objects": 20000},
            "thorough": {"monitor.match": 1000000, "monitor.nfa_match": 1000000, "monitor.starts_with": 1000000}}
 ALPHABET = ("a", "b", "c")
 STEP_BUDGET = 3_000_000
@@ -179,6 +179,7 @@ def run(shard, ctx):
         # random larger cases (sampling)
         rng = rng_for(shard["seed"], "c13", shard["part"])
         short_seqs = R.sequences(ALPHABET, 2)
+        short3 = R.sequences(ALPHABET, 4)
         n = shard["rand"] // shard["parts"]
         for i in range(n):
             t = R.random_tree(rng, rng.randint(6, shard["rsize"]), ALPHABET)
@@ -210,6 +211,22 @@ def run(shard, ctx):
                     mon.check(t, s2, expr)
             if i == 0:
                 ctx.sample({"pattern": show(t), "sequence": "".join(s), "random": True})
+        # shared sub-pattern objects: the same operator object at several positions of one pattern and in several patterns,
+        # patterns re-used after other patterns that share objects with them were compiled
+        cache = {}
+        pool = []
+        for i in range(shard.get("shared", 25)):
+            sub = R.random_tree(rng, rng.randint(2, 5), ALPHABET)
+            shape = rng.choice(["x?x", "xax", "x|ax", "(xb)*x", "x+bx"])
+            t = {"x?x": ("seq", ("opt", sub), sub), "xax": ("seq", sub, ("seq", ("atom", "a"), sub)), "x|ax": ("alt", sub, ("seq", ("atom", "a"), sub)),
+                 "(xb)*x": ("seq", ("star", ("seq", sub, ("atom", "b"))), sub), "x+bx": ("seq", ("plus", sub), ("seq", ("atom", "b"), sub))}[shape]
+            expr = to_expr_shared(t, cache)
+            pool.append((t, expr))
+            for t2, e2 in ([(t, expr)] + rng.sample(pool, min(3, len(pool)))):  # this pattern, and earlier ones again
+                for s2 in rng.sample(short3, 12):
+                    ctx.count("cases.shared_operator_objects")
+                    ctx.distinct(["shared", show(t2), "".join(s2)])
+                    mon.check(t2, s2, e2)
         # large patterns: "building a matcher terminates for every pattern" must not depend on patterns being small
         for i in range(shard.get("large", 14)):
             t = R.random_tree(rng, rng.randint(30, 90), ALPHABET)
